@@ -197,12 +197,14 @@ def render(doc, fmt) -> bytes:
             return web.write_epub({"chapters": ["gap" if pg == "gap" else {"blocks": [["p", [["r", i] for i in ln]] for ln in pg]}
                                                 for pg in doc["pages"]], "props": doc.get("props")}, opf_dir=depth)
         return misc.write_plain([ln for pg in doc["pages"] for ln in pg], fmt)
+    if k == "formula":
+        return odf.write_odf_formula(doc["ids"], doc.get("props"))
     raise ValueError((k, fmt))
 
 
 EXTRACTOR = {"docx": "read_docx", "odt": "read_odt", "html": "read_html", "mhtml": "read_mhtml", "epub": "read_epub",
              "rtf": "read_rtf", "pptx": "read_pptx", "odp": "read_odp", "odg": "read_odg", "xlsx": "read_xlsx",
-             "ods": "read_ods", "xls": "read_xls", "pdf": "read_pdf", "txt": "read_plain_text", "md": "read_plain_text",
+             "ods": "read_ods", "odf": "read_odf", "xls": "read_xls", "pdf": "read_pdf", "txt": "read_plain_text", "md": "read_plain_text",
              "csv": "read_plain_text", "tsv": "read_plain_text", "json": "read_plain_text"}
 
 
@@ -318,15 +320,21 @@ def rich_doc(fmt, seed=0):
              "images": [{"target": pre + "i1.png", "part": part + "i1.png", "data": img1}]},
             {"shapes": [["text", [[["r", 9]]]]], "notes": [], "comments": [10] if fmt == "pptx" else [],
              "images": [{"target": pre + "i2.jpeg", "part": part + "i2.jpeg", "data": img2}]}]}
+    if fmt == "xls":
+        return {"kind": "book", "props": props, "sheets": [
+            {"name": word(1), "name_id": 1, "rows": [[["s", 2], ["s", 3]], [["str", "  " + word(4)], ["n", 1.5]]]},
+            {"name": word(6), "name_id": 6, "rows": [[["s", 7]], [["s", 8]]]}]}
     if fmt in ("xlsx", "ods"):
         pre = "../media/" if fmt == "xlsx" else "Pictures/"
         part = "xl/media/" if fmt == "xlsx" else "Pictures/"
         return {"kind": "book", "props": props, "sheets": [
-            {"name": word(1), "name_id": 1, "rows": [[["s", 2], ["s", 3]], [["s", 4], ["s", 5]]],
+            {"name": word(1), "name_id": 1, "rows": [[["str", "  " + word(2)], ["s", 3]], [["s", 4], ["str", word(5) + "  "]]],
              "images": [{"target": pre + "i1.png", "part": part + "i1.png", "data": img1}]},
             {"name": word(6), "name_id": 6, "rows": [[["s", 7]]], "images": []}]}
     if fmt in ("pdf", "txt", "md", "csv", "tsv", "json"):
         return {"kind": "pages", "props": props, "pages": [[[1, 2], [3]], [[4]]]}
+    if fmt == "odf":
+        return {"kind": "formula", "props": props, "ids": [[1, 2], [3, 4, 5]]}
     raise ValueError(fmt)
 
 
